@@ -115,7 +115,8 @@ PROPS = {
                  'the last-fit policy (highest feasible window). order_slots / restore_order proved for one- and two-entry requests '
                  '(permutation, widest first, restore inverts order); slot <-> (N, M) <-> frequency helpers are mutually inverse; '
                  'compute_spectrum_slot_vs_bandwidth gives enough whole slots per channel. compute_n_m with two fully user-fixed (N, M) entries: '
-                 'both used verbatim and disjoint, or the request is left unserved (blocked).',
+                 'both used verbatim and disjoint, or the request is left unserved; through pth_assign_spectrum: accepted => both ranges were '
+                 'free and occupancy = old + both ranges, blocked => no label and no spectrum change.',
         'level_note': 'structure bounds of the compute_n_m / pth_assign_spectrum contracts: one request with one (N, M) '
                       'entry over a two-OMS list (path over one or both); map sizes, extents and contents unbounded. '
                       'The history clause (occupancy = union of accepted ranges, pairwise disjoint) follows by induction '
